@@ -45,12 +45,14 @@ type Proxy struct {
 	refuse  bool
 	latency time.Duration
 	hold    chan struct{} // non-nil: accepted connections are not forwarded until Release
+	small   bool          // small kernel receive buffers on both legs (back-pressure reaches the peers quickly)
 	conns   map[*pconn]struct{}
 
 	Accepted atomic.Int64
 	Live     atomic.Int64
 	HighLive atomic.Int64
 	Bytes    [2]atomic.Int64 // forwarded bytes per direction (all connections)
+	paused   [2]atomic.Int64 // unix nanos until which forwarding in that direction is suspended
 	CutAt    atomic.Int64    // unix nanos of the last injected cut
 	closed   atomic.Bool
 }
@@ -129,6 +131,20 @@ func (p *Proxy) Refuse(on bool) {
 	p.mu.Unlock()
 }
 
+// SetSmallBuffers makes the proxy use 16 KiB kernel receive buffers on both legs of later connections.
+func (p *Proxy) SetSmallBuffers(on bool) {
+	p.mu.Lock()
+	p.small = on
+	p.mu.Unlock()
+}
+
+// PauseDir suspends forwarding in one direction (0 client->server, 1 server->client) of every
+// connection for d: bytes are neither lost nor reordered, the sender simply experiences back-pressure
+// (its socket buffers, then its write queue, fill up).
+func (p *Proxy) PauseDir(dir int, d time.Duration) {
+	p.paused[dir].Store(time.Now().Add(d).UnixNano())
+}
+
 // Hold makes the proxy accept connections without forwarding a byte until Release: the
 // peer's dial succeeds (its connection object exists) while nothing, in particular no
 // fault, can happen to the stream yet.
@@ -164,7 +180,7 @@ func (p *Proxy) acceptLoopOn(ln net.Listener) {
 		}
 		p.Accepted.Add(1)
 		p.mu.Lock()
-		refuse, backend, plan, lat, hold := p.refuse, p.backend, p.plan, p.latency, p.hold
+		refuse, backend, plan, lat, hold, small := p.refuse, p.backend, p.plan, p.latency, p.hold, p.small
 		if !refuse {
 			p.plan = Plan{} // a plan applies to the next accepted connection only
 		}
@@ -186,7 +202,7 @@ func (p *Proxy) acceptLoopOn(ln net.Listener) {
 				return
 			}
 			pc := &pconn{p: p, c: c, s: s, plan: plan, undeaf: make(chan struct{})}
-			if plan.Kind == CutHalfBlackhole {
+			if plan.Kind == CutHalfBlackhole || small {
 				// small receive buffers: the peers' writes block after a few hundred KB instead of several MB
 				if tc, ok := c.(*net.TCPConn); ok {
 					tc.SetReadBuffer(16 << 10)
@@ -252,6 +268,18 @@ func (pc *pconn) pipe(dir int, src, dst net.Conn) {
 		if pc.deaf.Load() {
 			<-pc.undeaf
 			return
+		}
+		for {
+			until := pc.p.paused[dir].Load()
+			wait := time.Until(time.Unix(0, until))
+			if until == 0 || wait <= 0 {
+				break
+			}
+			select {
+			case <-time.After(wait):
+			case <-pc.undeaf:
+				return
+			}
 		}
 		if n > 0 {
 			b := buf[:n]
